@@ -560,6 +560,13 @@ load_basic(Archive &ar, RCP<const T> &,
 {
     RCP<const Number> num, den;
     ar(num, den);
+    if (is_a<RealDouble>(*num) and is_a<RealDouble>(*den)) {
+        // the parts as they are: re + I*im in complex arithmetic turns an
+        // infinite part into NaN
+        return complex_double(
+            std::complex<double>(down_cast<const RealDouble &>(*num).i,
+                                 down_cast<const RealDouble &>(*den).i));
+    }
     return addnum(num, mulnum(I, den));
 }
 template <class Archive>
